@@ -38,7 +38,8 @@ CONSTANTS MaxPrefix,      \* well-formed entries before the malformed item (0..M
           ReqTokens,      \* step tokens of enumerated scenario request lists (subset of AllReqTokens)
           MaxReqLen,      \* request lists of 0..MaxReqLen steps
           CfgTreeSyn,     \* syntaxes in which the configuration-tree cases (CfgSchema) are enumerated
-          MaxPropLines    \* property files of 0..MaxPropLines lines
+          MaxPropLines,   \* property files of 0..MaxPropLines lines
+          PropLayoutSet   \* layouts in which they are written (subset of PropLayouts)
 
 VARIABLES cs,             \* the case (constant during a behaviour)
           st              \* reader state
@@ -516,7 +517,7 @@ PropInfo(a) ==
        ELSE IF \E j \in longs : j < first THEN [v |-> "either", val |-> PropVal(l[first])]
        ELSE [v |-> "deliver", val |-> PropVal(l[first])]
 PropLineSeqs == UNION { [1..n -> PropTokens] : n \in 0..MaxPropLines }
-PropArgs  == { <<l, r, lay>> : l \in PropLineSeqs, r \in PropReqs, lay \in PropLayouts }
+PropArgs  == { <<l, r, lay>> : l \in PropLineSeqs, r \in PropReqs, lay \in PropLayoutSet }
 IsPropArg(a) == /\ Len(a) = 3 /\ Len(a[1]) <= MaxPropLines /\ \A i \in 1..Len(a[1]) : a[1][i] \in PropTokens
                 /\ a[2] \in PropReqs /\ a[3] \in PropLayouts
 PropCases == { [kind |-> "desc", format |-> "config", mode |-> "-", np |-> 0, cls |-> "propfile", nt |-> 0, arg |-> a] : a \in PropArgs }
